@@ -296,6 +296,18 @@ class TableObj:
     def getitem(self, ev, key, lineno):
         if isinstance(key, str):
             return self._col(key)
+        if is_array(key) and key.kind == "b" and not isinstance(key, Comp):
+            # boolean row filter: a new frame (a copy) whose columns are compressed by the mask
+            ev.same_len(self.n, key.n, lineno)
+            cols = {}
+            for c, s_ in self.columns.items():
+                cc = Comp(key, s_.f, s_.kind)
+                cc.is_series = True
+                cols[c] = cc
+            ft = TableObj(self.name + "[mask]", Count(key), cols,
+                          index=Comp(key, self.index.f, "i"))
+            ft.filtered_by = key
+            return ft
         raise Unsupported("table subscript %r" % (key,))
 
     def setitem(self, ev, key, v, lineno):
